@@ -22,6 +22,7 @@ func checkC07(w *World, r *Report) {
 	r.Rule("C07.guard", "P5", "the sender's account is modified only after amount <= LockedCoins(now) (IsAllLTE true edge) and after the type test for ContinuousVestingAccount succeeded", 4)
 	r.Rule("C07.writes", "P4", "in the unlock function the only field of the sender's account that is stored is OriginalVesting, by subtraction from itself", 2)
 	r.Rule("C07.reduction", "P6", "every amount taken off the sender's OriginalVesting is either trunc(coin.Amount x OriginalVesting.AmountOf(denom) / GetVestingCoins(now).AmountOf(denom)) for the requested coin, or the constant rounding compensation; nothing else is subtracted", 2)
+	r.Rule("C07.errprop", "P5", "= C05.errprop on the split / move trees: the unlock, the creation of the recipient and the transfer report their failure upward - a split whose transfer failed is never reported as done (the sender's vesting was already reduced and stored by then)", 5)
 	r.Rule("C07.move", "P6", "the move handlers pass LockedCoins(from) / its restriction to the requested denominations as the amount", 2)
 	if !ro.checkFloors(r) {
 		return
@@ -195,6 +196,10 @@ func checkC07(w *World, r *Report) {
 		}
 	}
 
+	// ---------- C07.errprop ----------
+	shareRule(w, r, checkC05, "C05.errprop", "C07.errprop", func(o Obligation) bool {
+		return strings.Contains(o.Construct, "splitVestingCoins") || strings.Contains(o.Construct, "UnlockUnbondedContinuousVestingAccountCoins") || strings.Contains(o.Construct, "MoveAvailableVesting") || strings.Contains(o.Construct, "SplitVesting")
+	})
 	// ---------- C07.move ----------
 	tr := w.Tracer()
 	for _, anchor := range []string{"x/cfevesting/keeper.msgServer.MoveAvailableVesting", "x/cfevesting/keeper.msgServer.MoveAvailableVestingByDenoms"} {
